@@ -3,6 +3,8 @@ package main
 // Verification units: one real function (or function literal) of /repo under contract.
 
 import (
+	"os"
+	"runtime/debug"
 	"fmt"
 	"go/ast"
 	"go/constant"
@@ -123,7 +125,12 @@ func (u *Unit) nonFunctional(st *State, why string) {
 
 const maxPaths = 6000
 
-func (u *Unit) note(s string) { u.notes[s] = true }
+func (u *Unit) note(s string) {
+	if pat := os.Getenv("GOVC_TRACE_NOTE"); pat != "" && strings.Contains(s, pat) && !u.notes[s] {
+		fmt.Fprintf(os.Stderr, "NOTE %s\n%s\n", s, debug.Stack())
+	}
+	u.notes[s] = true
+}
 
 func (u *Unit) oblige(st *State, name, kind, text, goal string, quant bool) {
 	if u.quiet > 0 {
